@@ -3,13 +3,15 @@ open IrVerif.Path
 #print axioms C10_lexical
 #print axioms C10_real
 #print axioms C10_read_safe
+#print axioms C10_open_safe
 #print axioms C10_all_entry_points
+#print axioms C10_single_name
+#print axioms C10_base_resolves
 #print axioms C10_load_base_nonempty
 #print axioms C10_load_base_is_model_dir
 #print axioms C10_load_read_safe
-#print axioms C10_open_safe
+#print axioms C10_load_all_positions
 #print axioms C10_call_events
 #print axioms C10_call_open_safe
 #print axioms C10_call_result
 #print axioms C10_session_safe
-#print axioms C10_load_all_positions
